@@ -93,6 +93,11 @@ theorem kw_checks_iv (C : BlockCipher) (key c nonce aad p : Bytes) (h : kwDecryp
     ∧ nonce = [] ∧ aad = [] ∧ c.length % 8 = 0 ∧ 8 ≤ c.length :=
   Lemmas.kw_checks_iv C key c nonce aad p h
 
+/-- Stated, not alarmed by the proof side (the harness reports it as `c12:kw-empty`): for n = 0 blocks — outside
+    RFC 3394 (n ≥ 2) but accepted by the code — the check value A6…A6 unwraps under every key. -/
+theorem kw_empty_unwraps_under_every_key (C : BlockCipher) (key : Bytes) : kwDecrypt C key kwIv [] [] = .ok [] :=
+  Lemmas.kw_empty_unwraps_under_every_key C key
+
 /-- GCM / ChaCha20-Poly1305 wrappers: what `encrypt_in_place` produces (ct ‖ tag, position |m|) decrypts
     to the message. -/
 theorem streamAead_roundtrip (A : AeadPrim) (hA : A.Lawful) (nl : Nat) (sk : Kind) (key m nonce aad buf : Bytes)
